@@ -415,32 +415,23 @@ func (E *Engine) recAxiomsFor(ts []*Term, goal *Term) []*Term {
 	}
 	var out []*Term
 	done := map[string]bool{}
+	allowed := map[string]bool{} // applications reached by a counting-down constant argument
 	for level := 0; level < 18 && len(present) > 0; level++ {
 		keys := make([]string, 0, len(present))
 		for k := range present {
 			keys = append(keys, k)
 		}
 		sort.Strings(keys)
-		var produced []*Term
+		next := map[string]*Term{}
 		for _, k := range keys {
 			if done[k] {
 				continue
 			}
+			if level >= 1 && !allowed[k] {
+				continue
+			}
 			done[k] = true
 			t := present[k]
-			if level >= 1 {
-				// deeper levels only for applications with a constant argument
-				// (bounded unrolling such as the 8 bit-steps of a CRC)
-				hasConst := false
-				for _, a := range t.Args {
-					if a.IsConst() {
-						hasConst = true
-					}
-				}
-				if !hasConst {
-					continue
-				}
-			}
 			tpl := E.recTemplates[t.Name]
 			m := map[string]*Term{}
 			for i, p := range tpl.params {
@@ -448,17 +439,33 @@ func (E *Engine) recAxiomsFor(ts []*Term, goal *Term) []*Term {
 			}
 			ax := Eq(t, Subst(tpl.body, m))
 			out = append(out, ax)
-			produced = append(produced, ax)
-		}
-		present = map[string]*Term{}
-		for _, ax := range produced {
+			// applications in the unfolded body: deeper unfolding only along a
+			// constant argument that changes (bounded unrolling, e.g. the 8
+			// bit-steps of a CRC), or when the parent was itself not recursive
+			sub := map[string]*Term{}
+			save := present
+			present = sub
 			walk(ax.Args[len(ax.Args)-1])
-		}
-		for k := range present {
-			if done[k] {
-				delete(present, k)
+			present = save
+			for sk, u := range sub {
+				if done[sk] {
+					continue
+				}
+				ok := u.Name != t.Name
+				if !ok {
+					for i := range u.Args {
+						if i < len(t.Args) && u.Args[i].IsConst() && t.Args[i].IsConst() && u.Args[i].C.Cmp(t.Args[i].C) != 0 {
+							ok = true
+						}
+					}
+				}
+				if ok {
+					allowed[sk] = true
+					next[sk] = u
+				}
 			}
 		}
+		present = next
 	}
 	return out
 }
